@@ -775,7 +775,9 @@ def run(ctx):
                    f"DISCONNECTED networks -- model of connected_components / subgraph / "
                    f"node_weights[nodes] / copy-back with the exact kernels == implementation, on "
                    f"graphs, split copies and the model's own split; component lists == igraph's; "
-                   f"the loop stores at every node its own component's value ({ncomp} requests)",
+                   f"the loop stores at every node its own component's value (since round 5c the "
+                   f"theorem per_component_loop_eq_per_node for every undirected network; the "
+                   f"driver's flag is kept as a cross-check) ({ncomp} requests)",
                    "correspondence", not bad_comp, "\n".join(bad_comp[:6]))
     ctx.extra["values_compared"] = nvals
     extras(ctx)
